@@ -355,11 +355,18 @@ SIM_CHECKS = {
     "C01": [dict(engine="c01", quick=30000, thorough=500000, build="default", shim=True)],
     "C02": [dict(engine="c02", quick=24000, thorough=400000, build="default")],
     "C03": [dict(engine="c03", quick=24000, thorough=400000, build="default")],
+    "C06": [dict(engine="c06", quick=60000, thorough=1500000, build="default")],
     "C15": [dict(engine="c15", quick=40000, thorough=600000, build="default")],
     "C18": [dict(engine="c18", quick=30000, thorough=500000, build="default")],
 }
 
 RULES = {
+    "C06": "case = (stored bytes = generated or real-window .osu text of any mode/version after 0-4 seeded storage faults: "
+    "truncation, bit flip, byte overwrite, dropped/duplicated/swapped/shuffled lines, corrupted numeric token, BOM, "
+    "UTF-16LE/BE re-encoding, invalid UTF-8, CRLF, noise; reader plan = fill_buf window sizes, EINTR offsets, hard error "
+    "offset, premature EOF offset). For ~12% of the files <= 600 bytes every two-chunk split, byte-wise continuation, "
+    "truncation offset, EINTR position and hard-error offset is enumerated. Oracles 1-7 of DESIGN 5.6. Non-trivial = at "
+    "least one storage or reader fault; distinct = distinct (storage fault list, reader plan, size class).",
     "C18": "case = (map, target mode, history of 1-12 setter calls with in-range, boundary, out-of-range and infinite "
     "values incl. .difficulty(d) replacement, inspect round trips and clones at arbitrary points, score spec, optional "
     "raw write into InspectDifficulty). Three clients replay the history (Performance setters, Difficulty setters, "
@@ -455,9 +462,12 @@ def run_sim_check(prop, tier, level="exploration", extra_cov=None):
 # ------------------------------------------------------------------ dispatch
 
 
+LEVELS = {"C06": "fault_enumeration"}
+
+
 def run_check(prop, tier):
     if prop in SIM_CHECKS:
-        return run_sim_check(prop, tier)
+        return run_sim_check(prop, tier, level=LEVELS.get(prop, "exploration"))
     raise HarnessError(f"no check registered for {prop}")
 
 
